@@ -66,12 +66,14 @@ def pts_out(tier):
             pts.append((Nb, No))
         for No in (1, 7, 9, Nb - 1, Nb + 1, 2 * Nb + 3):
             pts.append((Nb, No))
+        # far beyond the stated 4*Nb: more than 256 output blocks (the output counter needs a second byte)
+        pts.append((Nb, 257 * Nb + 8))
     return pts
 
 
 def run_out(ctx, pt):
     Nb, No = pt
-    for M in (b'', b'\xff', expander(Nb // 8 + 3, 4)):
+    for M in (b'', b'\xff', expander(Nb // 8 + 3, 4)) if No <= 4 * Nb else (b'\xff',):
         r = ctx.attempt(lambda: mk(Nb, No)(M))
         cls = 'output-longer-than-state' if No > Nb else 'output'
         if No % 8:
@@ -171,7 +173,7 @@ def subchecks():
         Sub('lengths', pts_len, run_len, engine='P',
             bound='Skein-256: every bit length 0..2Nb+9; Skein-512/1024: every L mod 8 at byte lengths {0,1,Nb/8-1,Nb/8,Nb/8+1,2Nb/8,2Nb/8+1,4Nb/8} (thorough: every bit length 0..2Nb+9 / 0..Nb+137); bitlen given (also when a multiple of 8) and omitted; containers 1 byte / 1 block longer; 2 data patterns'),
         Sub('output-lengths', pts_out, run_out, engine='P',
-            bound='No in every multiple of 8 in 8..4Nb for Nb=256 (thorough also 512), {8,Nb/2,Nb,Nb+8,2Nb,4Nb} otherwise, on 3 messages; byte count only for No not a multiple of 8'),
+            bound='No in every multiple of 8 in 8..4Nb for Nb=256 (thorough also 512), {8,Nb/2,Nb,Nb+8,2Nb,4Nb} otherwise, on 3 messages; byte count only for No not a multiple of 8; one output of 257 blocks+1 byte per state size'),
         Sub('arguments', pts_args, run_args, engine='P',
             bound='key in {absent, empty, 1 byte, one block, one block+1} x every subset of {prs,PK,kdf,nonce} x 2 messages'),
         Sub('tree', pts_tree, run_tree, engine='P',
